@@ -623,6 +623,8 @@ func runC16(p *Program, r *Result) {
 		checkCanonicalParse(p, r, pf, rsf, ivf, df)
 	}
 
+	r.Rule("R16.8", "the stanza reader the client listens through passes over no line (= R07.6)", 1)
+	checkNoLineDiscarded(p, r)
 	r.Rule("R16.7", "replies reach the plugin when they are written: no buffered writer stands between the client and the plugin's stdin (a reply held back in a buffer is never sent when the conversation ends with it)", 1)
 	{
 		n := 0
